@@ -138,7 +138,7 @@ func traceStep(a *acceptor, f []string) string {
 		ok = a.final()
 	case len(f) == 2 && f[1] == "down":
 		ok = a.down()
-	case len(f) == 4 && f[1] == "seed":
+	case len(f) == 4 && f[1] == "seed", len(f) == 3 && f[1] == "note":
 		ok = len(a.configs) > 0
 	default:
 		return "bad-op"
